@@ -180,7 +180,7 @@ func bufferInOrderMode(c *Ctx, rule string, strict bool) {
 			}
 			dom := false
 			for _, fl := range flushes {
-				if fc.dominates(fl, se) {
+				if fc.happensBefore(fl, se) {
 					dom = true
 				}
 			}
